@@ -16,7 +16,7 @@ THREADS = True
 
 
 def thread_ok(case):
-    return not case.get('warm')
+    return not case.get('warm') and not case.get('global')
 
 def gen(rng, tier):
     cases = []
@@ -31,7 +31,10 @@ def gen(rng, tier):
             # domain, judged by the round-trip oracle alone)
             cfg = iu.gen_config(rng, allbits=(i % 9 == 8), modelled_only=True, decimals=dec)   # otherwise the theorem's domain: wf_cfgb
             m = iu.rand_message(rng, cfg, codec)
-            cases.append(dict({'cfg': cfg, 'codec': codec, 'hex': hexbm, 'msg': iu.dict_text(m)}, **({'dec': True} if dec else {})))
+            # (`global`: the caller has REPLACED the packaged configuration - cardutil.config.config['bit_config'] = ... after
+            # import - and calls without iso_config: the configuration in force is the one set, not the one at import)
+            cases.append(dict({'cfg': cfg, 'codec': codec, 'hex': hexbm, 'msg': iu.dict_text(m)}, **({'dec': True} if dec else {}),
+                              **({'global': True} if i % 21 == 11 else {})))
         else:
             m = iu.rand_message(rng, pk, codec)
             cases.append({'cfg': None, 'codec': codec, 'hex': hexbm, 'msg': iu.dict_text(m)})
@@ -51,6 +54,19 @@ def impl(case):
         wb = iso8583.dumps(iu.dict_of_text(w['msg']), encoding=w['codec'], iso_config=c, hex_bitmap=w['hex'])
         iso8583.loads(wb, encoding=w['codec'], iso_config=c, hex_bitmap=w['hex'])
     cfg = iu.run_warm(case, warm_call)
+    if case.get('global'):
+        from cardutil import config as _config
+        old = _config.config['bit_config']
+        _config.config['bit_config'] = cfg
+        try:
+            return impl_calls(case, None)
+        finally:
+            _config.config['bit_config'] = old
+    return impl_calls(case, cfg)
+
+
+def impl_calls(case, cfg):
+    from cardutil import iso8583
     m = iu.dict_of_text(case['msg'])
     res = {'dumps': outcome(lambda: iso8583.dumps(dict(m), encoding=case['codec'], iso_config=cfg, hex_bitmap=case['hex']), hb)}
     if res['dumps'].startswith('OK '):
